@@ -107,12 +107,13 @@ def Formatter.format (f : Formatter) (caps : List Bytes) : Option Bytes :=
   if f.indexes.isEmpty then some f.fmtStr
   else sprintfS f.fmtStr (f.indexes.map fun i => caps.getD i [])
 
-/-! ### `regexp.Expand` template syntax (ASCII templates) -/
+/-! ### `regexp.Expand` template syntax -/
 
 def isDigitB (b : UInt8) : Bool := 48 ≤ b && b ≤ 57
 
-/-- `extract`: (name, rest) or none when malformed. Only ASCII word bytes are names here; a template
-    byte ≥ 0x80 directly after `$`/`${` is reported by `hasNonAscii` and excluded by the caller. -/
+/-- the ASCII name syntax of the specification (`expandSpec`, `refNames`): (name, rest) or none when
+    malformed; a name is the longest run of `[A-Za-z0-9_]`. (The *model* of Go's `extract`, which scans
+    the name rune by rune, is `rxExtractU` below.) -/
 def rxExtract (s : Bytes) : Option (Bytes × Bytes) :=
   let (brace, s1) := match s with
     | b :: r => if b == cLBrace then (true, r) else (false, s)
@@ -126,6 +127,60 @@ def rxExtract (s : Bytes) : Option (Bytes × Bytes) :=
     | [] => none
   else some (name, r)
 
+/-- `unicode.IsLetter r || unicode.IsDigit r` for a rune in U+0080..U+027F (Latin-1 Supplement,
+    Latin Extended-A/B, the head of IPA Extensions): `ª µ º`, `À..Ö`, `Ø..ö`, `ø..ɿ`. There is no
+    non-ASCII decimal digit below U+0660. -/
+def isLetterLatin (r : Nat) : Bool :=
+  r == 0xAA || r == 0xB5 || r == 0xBA || (0xC0 ≤ r && r ≤ 0xD6) || (0xD8 ≤ r && r ≤ 0xF6) ||
+  (0xF8 ≤ r && r ≤ 0x27F)
+
+/-- Go's `utf8.DecodeRune` on the head of `s` followed by `unicode.IsLetter r || unicode.IsDigit r || r == '_'`, as far as
+    it is modelled: `some (w, b)` — the rune is `w` bytes wide and is (`b = true`) or is not a name rune; `none` — not
+    modelled (lead bytes 0xCA..0xF4). An invalid encoding decodes to `RuneError` of width 1, which is not a name rune;
+    the empty input to width 0. -/
+def nameRune : Bytes → Option (Nat × Bool)
+  | [] => some (0, false)
+  | b :: rest =>
+    if b < 0x80 then some (1, isWordByte b)
+    else if 0xC2 ≤ b && b ≤ 0xC9 then
+      match rest with
+      | c :: _ =>
+        if 0x80 ≤ c && c ≤ 0xBF then some (2, isLetterLatin ((b.toNat - 0xC0) * 64 + (c.toNat - 0x80)))
+        else some (1, false)
+      | [] => some (1, false)
+    else if 0xCA ≤ b && b ≤ 0xF4 then none
+    else some (1, false)
+
+/-- length in bytes of the longest prefix of name runes; `none` when an unmodelled rune is met before the name ends
+    (or the fuel runs out: `s.length + 1` suffices) -/
+def nameLenU : Nat → Bytes → Option Nat
+  | 0, _ => none
+  | fuel + 1, s =>
+    match nameRune s with
+    | none => none
+    | some (_, false) => some 0
+    | some (w, true) => (nameLenU fuel (s.drop w)).map (w + ·)
+
+/-- Go's `extract` (regexp/regexp.go), which scans the name rune by rune (`unicode.IsLetter`/`IsDigit`/`_`):
+    `none` = not modelled (a rune outside `nameRune`'s fragment is met while scanning the name);
+    `some none` = malformed (Go's `ok = false`: empty name, or `${name` without the closing brace);
+    `some (some (name, rest))` as in `rxExtract`. -/
+def rxExtractU (s : Bytes) : Option (Option (Bytes × Bytes)) :=
+  let (brace, s1) := match s with
+    | b :: r => if b == cLBrace then (true, r) else (false, s)
+    | [] => (false, [])
+  match nameLenU (s1.length + 1) s1 with
+  | none => none
+  | some n =>
+    let name := s1.take n
+    if name.isEmpty then some none else
+    let r := s1.drop n
+    if brace then
+      match r with
+      | b :: r' => if b == cRBrace then some (some (name, r')) else some none
+      | [] => some none
+    else some (some (name, r))
+
 /-- the numeric value of a reference name, `none` if it is a (non-numeric) group name -/
 def rxNum (name : Bytes) : Option Nat :=
   if name.all isDigitB && !(name.head? == some 48 && name.length > 1) && name.length ≤ 8 then
@@ -135,17 +190,20 @@ def rxNum (name : Bytes) : Option Nat :=
 /-- submatches of one regex match: group i ↦ (subexp name, captured text or none if the group did not participate) -/
 abbrev RxMatch := List (Bytes × Option Bytes)
 
-def rxExpand (m : RxMatch) : Nat → Bytes → Bytes
-  | 0, t => t
-  | _, [] => []
+/-- `regexp.Expand`; `none` = the template is outside the modelled fragment (some reference name on the scan path
+    contains a rune `nameRune` does not model) -/
+def rxExpand (m : RxMatch) : Nat → Bytes → Option Bytes
+  | 0, t => some t
+  | _, [] => some []
   | fuel + 1, b :: rest =>
     if b == cDollar then
       match rest with
       | c :: rest' =>
-        if c == cDollar then cDollar :: rxExpand m fuel rest'
-        else match rxExtract rest with
-          | none => cDollar :: rxExpand m fuel rest
-          | some (name, r) =>
+        if c == cDollar then (rxExpand m fuel rest').map (cDollar :: ·)
+        else match rxExtractU rest with
+          | none => none
+          | some none => (rxExpand m fuel rest).map (cDollar :: ·)
+          | some (some (name, r)) =>
             let sub : Bytes := match rxNum name with
               | some n => match m[n]? with
                 | some (_, some t) => t
@@ -153,8 +211,8 @@ def rxExpand (m : RxMatch) : Nat → Bytes → Bytes
               | none => match m.find? (fun g => g.1 == name && g.2.isSome) with
                 | some (_, some t) => t
                 | _ => []
-            sub ++ rxExpand m fuel r
-      | [] => [cDollar]
-    else b :: rxExpand m fuel rest
+            (rxExpand m fuel r).map (sub ++ ·)
+      | [] => some [cDollar]
+    else (rxExpand m fuel rest).map (b :: ·)
 
 end SE
